@@ -135,16 +135,20 @@ OutWithinSeen == /\ RangeOf(out) \subseteq seen \ skipped /\ NoDup(out) /\ Sorte
                  /\ skipped \subseteq prob.border \cap seen
 
 (* ---- (iii) design model of the spatial hash ---------------------------------------- *)
-(* Geometry G = [nc, nb, s, m, wrap, guard]: a ring of nc cells (the right-ascension     *)
-(* direction, closed at the seam) times a band of nb cells (declination), every cell s   *)
-(* lattice units wide; margin m < s.  A point is <<x, y>>, 0 <= x < nc*s, 0 <= y < nb*s. *)
+(* Geometry G = [nc, nb, s, h, m, wrap, guard, walk]: a ring of nc cells (the right-     *)
+(* ascension direction, closed at the seam), every cell s lattice units wide, times nb   *)
+(* bands (declination slices) h units high; margin m < s.  The nominal band height is s, *)
+(* but where the padded declination range is clipped at a pole the same number of slices *)
+(* is squeezed into a shorter range: 1 <= h <= s, and h <= m is possible, so the margin   *)
+(* can span more than one band.  A point is <<x, y>>, 0 <= x < nc*s, 0 <= y < nb*h.       *)
 (* Dist is the box metric (an over-approximation of "closer than the margin").           *)
-(* wrap = FALSE and guard = FALSE are the broken variants kept as negative controls.     *)
+(* wrap = FALSE, guard = FALSE and walk = FALSE (only the adjacent band is reached) are   *)
+(* the broken variants kept as negative controls.                                        *)
 RingLen(G) == G.nc * G.s
-BandLen(G) == G.nb * G.s
+BandLen(G) == G.nb * G.h
 PointsOf(G) == (0 .. RingLen(G) - 1) \X (0 .. BandLen(G) - 1)
 CellsOf(G) == (0 .. G.nc - 1) \X (0 .. G.nb - 1)
-GeometryOK(G) == G.nc >= 1 /\ G.nb >= 1 /\ G.s >= 1 /\ G.m >= 1 /\ G.m < G.s
+GeometryOK(G) == G.nc >= 1 /\ G.nb >= 1 /\ G.s >= 1 /\ G.m >= 1 /\ G.m < G.s /\ G.h >= 1 /\ G.h <= G.s
 
 Abs(v) == IF v < 0 THEN -v ELSE v
 Larger(a, b) == IF a > b THEN a ELSE b
@@ -152,18 +156,20 @@ RingDist(G, a, b) == LET d == (a - b) % RingLen(G) IN IF d <= RingLen(G) - d THE
 Dist(G, p, q) == Larger(RingDist(G, p[1], q[1]), Abs(p[2] - q[2]))
 
 (* the single cell a point is looked up in *)
-Lookup(G, q) == <<q[1] \div G.s, q[2] \div G.s>>
+Lookup(G, q) == <<q[1] \div G.s, q[2] \div G.h>>
 
-(* cell index u (unwrapped, possibly < 0 or >= n) along one axis is within the margin    *)
-(* of coordinate v: u is v's own cell, or the near edge of u is closer than m            *)
-Within(G, v, u) == LET own == v \div G.s IN
+(* cell index u (unwrapped, possibly < 0 or >= n) along an axis with cells of size w is   *)
+(* within the margin of coordinate v: u is v's own cell, or the near edge of u is closer *)
+(* than m                                                                                *)
+Within(G, w, v, u) == LET own == v \div w IN
   \/ u = own
-  \/ u < own /\ v - (u + 1) * G.s < G.m
-  \/ u > own /\ u * G.s - v < G.m
+  \/ u < own /\ v - (u + 1) * w < G.m
+  \/ u > own /\ u * w - v < G.m
 
 (* unwrapped ring indices and band indices entered for point p *)
-RingReach(G, p) == {u \in -1 .. G.nc : Within(G, p[1], u)}
-BandReach(G, p) == {b \in 0 .. G.nb - 1 : Within(G, p[2], b)}
+RingReach(G, p) == {u \in -1 .. G.nc : Within(G, G.s, p[1], u)}
+BandReach(G, p) == {b \in 0 .. G.nb - 1 : /\ Within(G, G.h, p[2], b)
+                                          /\ G.walk \/ Abs(b - p[2] \div G.h) <= 1}
 WrapIndex(G, u) == u % G.nc
 (* how many times p is entered in cell c *)
 Insertions(G, p, c) ==
